@@ -396,3 +396,26 @@ extend('C12', 'Also: atoms of the ion-type adjustment and of the charge carriers
 extend('C13', 'Also: a terminal form made by apply_static_mods(BASE, ..) is expanded only under a comparison with BASE; '
               'the +1 shift of a consuming match is decided on the match whose index is yielded.')
 extend('C18', 'Also: optional numbers compared with None only; memo keys determine the memoised value.')
+
+
+# ---- seventh / eighth rounds (DESIGN.md 10.13, 10.14) -----------------------------------------------------------------
+extend('C03', 'Also: the guard in front of the labile modifications is true exactly for the precursor ion type (decided per '
+              'ion type of the repository\'s table); a module-level dictionary written and read in one function is a memo '
+              'whose key must determine the value; the mass the averagine composition is scaled by is the parameter itself.')
+extend('C06', 'Also: a return that hands out bare residues next to a general return through slice/split/serialize is taken '
+              'only when none of the ten has_<kind>() questions is true (guard evaluated on the ten single-kind cases).',
+       'guards evaluated on the finite set of single-kind annotations')
+extend('C09', 'Also: the multiplier handed to Mod(..) is 1 or int(<text>) on every path; in mass()/comp() no test that decides '
+              'whether the resolver runs reads the sequence (an unresolvable static rule raises whether or not its residue '
+              'occurs); look-ahead reads indexed by the variable of a range loop bounded by the input length are accepted.')
+extend('C10', 'Also: a memo shared by several vocabularies has the vocabulary in its key (key determines value).')
+extend('C15', 'Also: the key a formula component is stored under is followed back from the store to the match: a literal '
+              'table on the way is the identity on every valid symbol / isotope key, a case conversion leaves them unchanged.',
+       'provenance of dictionary keys (def-use closure, literal tables evaluated on the key alphabet)')
+extend('C16', 'Also: where C-terminal modifications of X are dropped under a length test the length is X\'s; unmodified fast '
+              'paths are guarded against all ten kinds; rows written in place are separate objects (no dict.fromkeys(K, '
+              '<mutable>) / [<mutable>] * n under an element write).')
+extend('C17', 'Also: coverage rows written in place are separate objects.')
+extend('C20', 'Also: __eq__ walks the modified positions of both operands (or compares the key sets outright); copy()/dict()/'
+              'mod_dict() share nothing with self one level further down (interval modification lists); a bound check on '
+              'intervals accepts the half-open end == len(sequence) the parser produces.')
